@@ -88,6 +88,7 @@ class XmlDate(NamedTuple):
         assert year is not None
         assert month is not None
         assert day is not None
+        validate_date(year, month, day)
         return cls(year, month, day, offset)
 
     @classmethod
@@ -676,7 +677,7 @@ class XmlPeriod(UserString):
             else:
                 year, offset = parse_date_args(value, DateFormat.G_YEAR)
 
-        validate_date(0, month or 1, day or 1)
+        validate_date(0, 1 if month is None else month, 1 if day is None else day)
 
         return TimePeriod(year=year, month=month, day=day, offset=offset)
 
